@@ -1,0 +1,63 @@
+//go:build verif
+
+package fetcher
+
+import "time"
+
+// Read-only view of the fetcher's bookkeeping for the verification harness (stream `fetcher`).
+// VerifSnapshot must be called on the goroutine of loop() (i.e. from inside one of the callbacks handed to New that
+// loop() calls synchronously: chainHeight, getBlock) — the maps are owned by that goroutine.
+
+type VerifSnap struct {
+	AnnouncedHashes  int            // len(f.announced)
+	AnnouncedEntries int            // sum of the lengths of the slices
+	AnnouncedDue     int            // hashes whose first announcement is older than arriveTimeout-gatherSlack (the timer case would take them)
+	Fetching         int            // len(f.fetching)
+	FetchingExpired  int            // pending fetches older than fetchTimeout
+	Queued           int            // len(f.queued)
+	QueueSize        int            // f.queue.Size()
+	Announces        map[string]int // copy of f.announces
+	Queues           map[string]int // copy of f.queues
+	PendingByPeer    map[string]int // entries of f.announced and f.fetching per origin (counted, not read from a counter)
+	QueuedByPeer     map[string]int // entries of f.queued per origin
+	QueuedHeights    []uint64       // heights of the entries of f.queued
+}
+
+func (f *Fetcher) VerifSnapshot() VerifSnap {
+	s := VerifSnap{
+		AnnouncedHashes: len(f.announced),
+		Fetching:        len(f.fetching),
+		Queued:          len(f.queued),
+		QueueSize:       f.queue.Size(),
+		Announces:       map[string]int{},
+		Queues:          map[string]int{},
+		PendingByPeer:   map[string]int{},
+		QueuedByPeer:    map[string]int{},
+	}
+	for _, as := range f.announced {
+		s.AnnouncedEntries += len(as)
+		if len(as) > 0 && time.Since(as[0].time) > arriveTimeout-gatherSlack {
+			s.AnnouncedDue++
+		}
+		for _, a := range as {
+			s.PendingByPeer[a.origin]++
+		}
+	}
+	for _, a := range f.fetching {
+		s.PendingByPeer[a.origin]++
+		if time.Since(a.time) > fetchTimeout {
+			s.FetchingExpired++
+		}
+	}
+	for k, v := range f.announces {
+		s.Announces[k] = v
+	}
+	for k, v := range f.queues {
+		s.Queues[k] = v
+	}
+	for _, op := range f.queued {
+		s.QueuedByPeer[op.origin]++
+		s.QueuedHeights = append(s.QueuedHeights, op.detailed.Momentum.Height)
+	}
+	return s
+}
